@@ -26,8 +26,16 @@ import (
 const (
 	repoDir  = "/repo"
 	rootPath = "github.com/gopatchy/bkl"
-	verifDir = "/verif"
 )
+
+// verifDir: where harnesses, known findings, evidence and replays live
+// (/verif, or a snapshot of it when started through run.sh from elsewhere).
+var verifDir = func() string {
+	if d := os.Getenv("VERIF_DIR"); d != "" {
+		return d
+	}
+	return "/verif"
+}()
 
 func main() {
 	debug.SetGCPercent(400)
